@@ -88,3 +88,33 @@ def token_wsc_rule(repo, res):
     """(superseded: is_WSC / is_comment / is_space are decided on their languages, rule WSC-LANG in vsa.langrules)"""
     repo.method("Token", "is_WSC")
     # (the language of is_comment / is_space against the grammar tables is rule WSC-LANG, vsa.langrules)
+
+
+def rule_i1(repo, res):
+    """I1: interval abstract interpretation of each grammar class's char_allowed (through the MRO): the accepted
+    set over all 1,114,112 code points equals the dialect's character set given in the statement of C15."""
+    from .. import interval, tables
+    n = 0
+    for c in tables.grammar_classes(repo):
+        ca = interval.CharAllowed(repo, c)
+        t, f, e = ca.accepted()
+        n += 1
+        exp = interval.EXPECTED.get(c)
+        res.samples.append({"grammar": c, "accepted": repr(t), "raises": repr(e), "resolved_through": ca.visited})
+        if exp is None:
+            res.notes.append(f"{c}: no expected set in the property statement; accepted {t!r}")
+            continue
+        ok = (t == exp) and not e
+        res.oblige("I1", f"{c}.char_allowed accepts exactly {exp!r}", ok=ok, detail=f"accepted {t!r}")
+        if not ok:
+            extra_ = t - exp
+            missing = exp - t
+            w = extra_.sample() if extra_ else missing.sample()
+            res.add(Finding("I1", f"{c}.char_allowed", "accepted set",
+                            f"{c}.char_allowed accepts {t!r} but the dialect's character set is {exp!r}"
+                            + (f"; wrongly accepted: {extra_!r}" if extra_ else "")
+                            + (f"; wrongly rejected: {missing!r}" if missing else "")
+                            + (f"; raises for {e!r}" if e else ""),
+                            witness=None if w is None else f"U+{w:04X}"))
+    res.floor("grammar classes with char_allowed", n, 5)
+    res.stat("evaluations", 1114112 * n, add=False)
